@@ -681,7 +681,7 @@ def run(ctx):
             "cmp=damaged", "cmp=damaged+ow", "fault=kill", "fault=torn", "fault=readfail", "out=ret", "out=killed", "out=raise:env", "out=raise:mismatch", "out=raise:corrupt",
             "procs=2", "chained-self", "sink=reused-sink", "sink=fresh-sink", "sweep-images", "logger-checked", "real:procs=2"]
     missing = [n for n in need if not stats.get(n)]
-    if missing: raise RuntimeError("never exercised on the real code: %s" % missing)
+    if missing and not ctx.viol: raise RuntimeError("never exercised on the real code: %s" % missing)      # (a violation ends its behaviour early)
     ctx.assumptions += [
         "two environments with equal params have equal interactions (save() identifies environments by their params); environments whose params are equal but whose interactions differ are outside the domain",
         "a kill is realised as a BaseException raised from a substituted coba.environments.serialized.ZipFile (before the j-th member's open / after its close) and, for a kill inside a write, by replacing the file with a byte image: the first k bytes of the new file followed by the rest of the old file (what in-place rewriting of the directory leaves) or the first k bytes alone; images equal to the file before or after the write are not torn writes",
